@@ -67,6 +67,10 @@ func genNullyBlob(c *fw.Case, sz sizes) []byte {
 }
 
 func runC09(c *fw.Case) {
+	if desyncBin() != "" && c.Chance(1, 400, "c09.proc") {
+		runC09Proc(c)
+		return
+	}
 	sz := c09Sizes[c.Draw(len(c09Sizes), "c09.sizes")]
 	blob := genNullyBlob(c, sz)
 	idx := mkIndex(blob, sz)
